@@ -153,7 +153,20 @@ def phaseC (c : Cfgable) (a : PhaseA) (args : List Val) (kwargs : AList String V
 def evalKw (ev : Val → Val) (kw : AList String Val) : AList String Val :=
   kw.map (fun kv => (kv.1, ev kv.2))
 
-/-- `gin_wrapper` up to (not including) the call of the wrapped function.  Returns what is passed
+/-- names the caller supplied itself by keyword (not as a REQUIRED marker) -/
+def kwSupplied (kwargs : AList String Val) : List String :=
+  (kwargs.filter (fun kv => !kv.2.isRequired)).map (·.1)
+
+/-- the bindings that are evaluated (deep-copied): a binding for a parameter the caller supplies
+    by keyword is dropped first, so an overridden `@ref()` is not called -/
+def toEvaluate (a : PhaseA) (kwargs : AList String Val) : AList String Val :=
+  popAll a.newKw (kwSupplied kwargs)
+
+/-- `gin_wrapper` up to (not including) the call of the wrapped function, for a *pure* evaluation
+    `ev`.  (The code drops the bindings of keyword-supplied names before evaluating, `toEvaluate`;
+    with a pure `ev` that is unobservable because caller keywords overwrite those entries anyway, so
+    this layer evaluates all of `newKw`; the effectful layer `callCfg` in `Gin/Eval.lean` follows
+    the code exactly, and the C04 correspondence runs both on reference-free stores.)  Returns what is passed
     on and the operative parameters to be merged into the record. -/
 def wrapperCall (ev : Val → Val) (c : Cfgable) (cfg : Store) (σ : Scope)
     (args : List Val) (kwargs : AList String Val) :
